@@ -258,6 +258,9 @@ func (server *GripServer) BulkAdd(stream gripql.Edit_BulkAddServer) error {
 			if streamOpen {
 				close(elementStream)
 				streamOpen = false
+				//let the previous loader commit before another one starts, so that
+				//elements reach each graph in the order they were sent
+				wg.Wait()
 			}
 			gdb, err := server.getGraphDB(element.Graph)
 			if err != nil {
